@@ -71,7 +71,10 @@ def corruptions_for(fmt, doc, rng, k):
         r = rng.random()
         if r < 0.55 or fmt == "discinfo" and r < 0.8:
             name, path, values = rng.choice(vs)
-            out.append({"kind": "value", "slot": name, "path": list(path), "value": rng.choice(values)})
+            cor = {"kind": "value", "slot": name, "path": list(path), "value": rng.choice(values)}
+            if name == "images.cell-arch-invalid":
+                cor["new_arch"] = rng.choice(["src", "nosrc", "x86-64", "SRC", ""])
+            out.append(cor)
         elif r < 0.75 or fmt == "discinfo":
             out.append({"kind": "delete", "slot": "required", "path": list(rng.choice(req))})
         elif r < 0.9:
@@ -124,6 +127,9 @@ def check_one(ctx, pms, fmt, D, order_seed, doc, cor):
                     kept = doc2[cor["path"][0]]
                 inj = cor["value"]
                 same = kept == inj and type(kept) is type(inj)
+                if cor.get("slot") == "images.cell-arch-invalid":
+                    parent = DC.get_path(doc2, cor["path"][:-1]) if DC.has_path(doc2, cor["path"][:-1]) else {}
+                    same = cor["new_arch"] in parent or any(cor["new_arch"] in a for a in obj.images.values())
                 if fmt in ("treeinfo", "discinfo") and isinstance(inj, str):
                     same = kept == inj.strip() and inj.strip() != "" or (kept == inj)
                 if same:
